@@ -245,4 +245,4 @@ def sample_view(case):
 def parts(tier):
     quick = tier == "quick"
     return [HypPart(name="create", check=check, strategy=_case,
-                    examples=40 if quick else 900, seconds=55 if quick else 800)]
+                    examples=40 if quick else 900, seconds=55 if quick else 600)]
